@@ -9,11 +9,11 @@ PLAN = {
     "property": "C02",
     "level": "proof",
     "manifest": {
-        "technique": "Kani/CBMC rely/guarantee on the real RecorderOnceCell::{set,try_load}, set_global_recorder and with_recorder: the state word's atomic operations are stubbed with protocol-obeying interference before every atomic step; loop-free code => every interleaving at atomic-step granularity under SC",
-        "text": "set(r) returns Ok iff its own compare_exchange UNINITIALIZED->INITIALIZING won; on Err the SetRecorderError carries the very recorder passed (identity and payload equal, drop count 0 until the caller drops it, then exactly 1) and the cell is untouched; on Ok the state is INITIALIZED and the cell holds the leaked, fully constructed recorder. The guarantee (my CAS is 0->1 only, I touch the cell only while I hold INITIALIZING or after my load saw INITIALIZED, my store is 1->2 only after my cell write) is asserted inside the stubs; the rely lets other installers advance 0->1->(write)->2 at every one of my atomic steps, and nothing once I hold INITIALIZING. try_load returns Some(p) iff its load observed INITIALIZED, never reads the cell otherwise, and once Some(p) was returned every later lookup returns the same p. set_global_recorder and the global/no-op arm of with_recorder are checked against the same stubs on the real GLOBAL_RECORDER static. 'At most one installation succeeds' follows because every installer's only way to Ok is the single irreversible 0->1 edge (checked per installer; two successive installers checked directly).",
+        "technique": "Verus lemma over the abstract protocol (at most one 0->1 edge, irreversible, INITIALIZED absorbing) + Kani/CBMC rely/guarantee on the real RecorderOnceCell::{set,try_load}, set_global_recorder and with_recorder: the state word's atomic operations are stubbed with protocol-obeying interference before every atomic step; loop-free code => every interleaving at atomic-step granularity under SC",
+        "text": "set(r) returns Ok iff its own compare_exchange UNINITIALIZED->INITIALIZING won; on Err the SetRecorderError carries the very recorder passed (identity and payload equal, drop count 0 until the caller drops it, then exactly 1) and the cell is untouched; on Ok the state is INITIALIZED and the cell holds the leaked, fully constructed recorder. The guarantee (my CAS is 0->1 only, I touch the cell only while I hold INITIALIZING or after my load saw INITIALIZED, my store is 1->2 only after my cell write) is asserted inside the stubs; the rely lets other installers advance 0->1->(write)->2 at every one of my atomic steps, and nothing once I hold INITIALIZING. try_load returns Some(p) iff its load observed INITIALIZED, never reads the cell otherwise, and once Some(p) was returned every later lookup returns the same p. set_global_recorder and the global/no-op arm of with_recorder are checked against the same stubs on the real GLOBAL_RECORDER static. 'At most one installation succeeds' and 'once Some(p), always Some(p)' follow for any number of threads and steps from the guarantee: proved by Verus over the abstract transition relation (protocol.verus.rs), and checked directly for two successive installers by Kani.",
         "note": "Assumes sequentially consistent atomics: the Acquire/Release/Relaxed orderings are NOT checked (no weak-memory model in Kani/CBMC). Each std atomic op is one atomic step. Other threads are assumed to run only this library's set/try_load (the rely). Box::leak is assumed to yield a valid 'static reference. Panic unwinding not modelled.",
     },
-    "min_obligations": {"quick": 7, "thorough": 7},
+    "min_obligations": {"quick": 11, "thorough": 11},
     "assumptions": [
         "atomics are sequentially consistent and each std atomic operation (compare_exchange, store, load) is one indivisible step; the memory orderings chosen in cell.rs (Acquire/Relaxed CAS, Release store, Acquire load) are not checked -- Kani/CBMC has no weak-memory model",
         "rely: every other thread accesses the cell only through RecorderOnceCell::set / try_load, i.e. its steps are 0->1 (CAS), write of the cell while holding INITIALIZING, 1->2 (store); modelled as nondeterministic advancement along that chain before each of my atomic steps; rely/guarantee soundness (every thread satisfies the guarantee => every interleaving satisfies the invariant) is the standard meta-argument, not machine-checked",
@@ -21,6 +21,11 @@ PLAN = {
         "Box::leak(Box::new(r)) yields a valid &'static reference to r (std contract); heap allocation never fails",
         "thread-locality of LOCAL_RECORDER is the language's contract; harnesses run with no local recorder installed",
         "panic = failure; unwinding semantics not modelled",
+    ],
+    "verus": [
+        # spec-level lemma over the abstract transition relation (no item extracted from /repo: the link to the code is
+        # the guarantee asserted in the Kani stubs): at most one 0->1 edge, state word monotone, INITIALIZED absorbing
+        {"template": "protocol.verus.rs", "tier": "quick", "rlimit": 30, "min_functions": 4},
     ],
     "kani": [{
         "crate": "metrics",
